@@ -42,6 +42,8 @@ fn reason_name(r: AbortReason) -> &'static str {
         AbortReason::NotFound => "not-found",
         AbortReason::AlreadySyncing => "already-syncing",
         AbortReason::InternalServerError => "internal-error",
+        #[allow(unreachable_patterns)]
+        _ => "unknown-reason",
     }
 }
 
